@@ -51,7 +51,7 @@ impl FStdlib {
         let v = value_alphabet().len() as u64;
         (0..=self.max_entries).map(|n| v.pow(n)).sum()
     }
-    const KEY_STYLES: u64 = 3;
+    const KEY_STYLES: u64 = 4;
     const VARIANTS: u64 = 8; // callback / key-function variants per function (those that take one)
     const PATHS: u64 = 3;
 }
@@ -91,6 +91,8 @@ impl Family for FStdlib {
             match key_style {
                 0 => int(j as i64),
                 1 => s(&format!("k{j}")),
+                // the keys 0..n-1 inserted in descending order: an array by key set, not by order
+                3 => int(n as i64 - 1 - j as i64),
                 _ => [int(7), s("s"), C::Float(1.5), C::Nil][j % 4].clone(),
             }
         };
